@@ -747,36 +747,59 @@ def r_float_h(P, rep, rule):
                             if 'value' in x:
                                 v = int(x['value'])
                         vals[c['name']] = v
-    # --- obligations
+    # --- obligations: one per macro and aspect while it holds; the failing macros of one family (FLT / DBL / LDBL / common) and aspect form one
+    # obligation whose key names them (one defect of the header = one key; another macro going wrong = another key)
+    bad = {}
+
+    def ob(n, aspect, ok, msg):
+        if ok:
+            rep.ob(rule, '%s:%s:%s' % (H, n, aspect), True, '', where=H)
+        else:
+            fam = n.split('_', 1)[0] if n.split('_', 1)[0] in ('FLT', 'DBL', 'LDBL') and n not in REQUIRED_COMMON else 'common'
+            bad.setdefault((fam, aspect), []).append((n, msg))
     for n, (kind, val, tname) in sorted(want.items()):
-        key = '%s:%s' % (H, n)
         if n not in hdr:
-            rep.ob(rule, key + ':defined', False, '<float.h> does not define %s; C11 5.2.4.2.2 lists it (a program using it does not compile)' % n, where=H)
+            ob(n, 'defined', False, n)
             continue
         if hdr[n][0] is not None:
-            rep.ob(rule, key + ':object-like', False, '%s is a function-like macro' % n, where=H); continue
+            ob(n, 'object-like', False, '%s is a function-like macro' % n); continue
         fo = foreign(hdr[n][1])
         if fo:
-            rep.undecided(rule, key, '%s is defined through %s, which the header does not define: its expansion under chibicc is not what the reader sees' % (n, ', '.join(fo)), where=H)
+            rep.undecided(rule, '%s:%s' % (H, n), '%s is defined through %s, which the header does not define: its expansion under chibicc is not what the reader sees' % (n, ', '.join(fo)), where=H)
             continue
+        ob(n, 'defined', True, '')
         ty, eq = vals.get('c02_ty_' + n), vals.get('c02_eq_' + n)
         if ty is None or eq is None:
-            rep.undecided(rule, key, 'the probe has no value for %s' % n, where=H); continue
+            rep.undecided(rule, '%s:%s' % (H, n), 'the probe has no value for %s' % n, where=H); continue
         body = hdr[n][1]
         if kind == 'int':
-            rep.ob(rule, key + ':value', eq == 1, '%s is `%s`; for the format the compiler gives the type (%s) C11 5.2.4.2.2 prescribes %d' % (
-                n, body, _fmt_of(n, fm), val), where=H)
-            rep.ob(rule, key + ':type', ty == 4, '%s (`%s`) has type %s, not int' % (n, body, TYCODE.get(ty, ty)), where=H)
-            if n != 'FLT_ROUNDS':
-                pp = vals.get('c02_pp_' + n)
-                rep.ob(rule, key + ':usable-in-#if', pp == 1, '%s (`%s`) does not evaluate to %d in #if' % (n, body, val), where=H)
+            ob(n, 'value', eq == 1, '%s is `%s`, prescribed %d' % (n, body, val))
+            ob(n, 'type', ty == 4, '%s (`%s`) has type %s, not int' % (n, body, TYCODE.get(ty, ty)))
+            if n != 'FLT_ROUNDS' and eq == 1:
+                ob(n, 'usable-in-#if', vals.get('c02_pp_' + n) == 1, '%s (`%s`) does not evaluate to %d in #if' % (n, body, val))
         else:
             gt = vals.get('c02_gt_' + n)
-            rep.ob(rule, key + ':value', eq == 1, '%s is `%s`, which is %s than the %s of the format the compiler gives %s (%s): %s' % (
-                n, body, 'greater' if gt else 'less', n.split('_', 1)[1], CTYPE[tname], _fmt_of(n, fm), _hexlit(val, {'float': 'f', 'double': '', 'ldouble': 'L'}[tname])), where=H)
+            ob(n, 'value', eq == 1, '%s is `%s` (%s than the prescribed %s)' % (n, body, 'greater' if gt else 'less', _hexlit(val, {'float': 'f', 'double': '', 'ldouble': 'L'}[tname])))
             code = {'float': 1, 'double': 2, 'ldouble': 3}[tname]
-            rep.ob(rule, key + ':type', ty == code, '%s (`%s`) has type %s; it is a characteristic of %s and used as a constant of that type (sizeof(%s), the type of expressions it appears in, _Generic)' % (
-                n, body, TYCODE.get(ty, ty), CTYPE[tname], n), where=H)
+            ob(n, 'type', ty == code, '%s (`%s`) has type %s' % (n, body, TYCODE.get(ty, ty)))
+    famty = {'FLT': 'float', 'DBL': 'double', 'LDBL': 'ldouble'}
+    for (fam, aspect), lst in sorted(bad.items()):
+        names = sorted(n for n, _ in lst)
+        short = [n.split('_', 1)[1] if fam != 'common' else n for n in names]
+        key = '%s:%s:%s:%s' % (H, fam, aspect, '+'.join(short))
+        fmt = ''
+        if fam in famty and fm[famty[fam]][0]:
+            fmt = ' (the compiler\'s %s: %d-byte object, precision %d bits, emin %d, emax %d)' % ((CTYPE[famty[fam]], fm[famty[fam]][1]) + fm[famty[fam]][0])
+        if aspect == 'defined':
+            msg = '<float.h> does not define %s; C11 5.2.4.2.2 lists %s (a program using one does not compile)' % (', '.join(names), 'them' if len(names) > 1 else 'it')
+        elif aspect == 'value':
+            msg = 'the values of <float.h> do not describe the format of the type%s: %s; C11 5.2.4.2.2' % (fmt, '; '.join(m for _, m in lst))
+        elif aspect == 'type':
+            msg = ('constants of <float.h> do not have the type they characterise%s: %s; C11 5.2.4.2.2 (the constants are expressions of the respective floating type: '
+                   'sizeof, _Generic and the usual arithmetic conversions of expressions they appear in depend on it)' % (fmt, '; '.join(m for _, m in lst)))
+        else:
+            msg = '; '.join(m for _, m in lst)
+        rep.ob(rule, key, False, msg, where=H)
 
 
 def _fmt_of(n, fm):
